@@ -68,6 +68,8 @@ def args_of(cfg, out="a.h5", extra=()):
               "--LinearRF", str(cfg["rfmod"][2])]
     if cfg.get("zoom"):
         a += ["--InitialDistZoom", repr(cfg["zoom"])]
+    if cfg.get("volt"):
+        a += ["-V", repr(cfg["volt"])]
     if out:
         a += ["-o", out]
     return a + list(extra)
